@@ -637,3 +637,14 @@ def run(rep: Report, tier: str):
     dom = check_order(repo, rep)
     check_aggregate(repo, rep)
     check_faces(repo, rep, dom, tier)
+
+    # value level, interpreted last: the command-line face on stacks of real pickles against the library face
+    from ..cliworlds import explore_safety as _cli_safety
+
+    rep.rule("C10.faces-worlds", "on stacks of real pickles of every verdict class: the CLI's exit status is 0 iff every library verdict is LIKELY_SAFE, and its JSON report names exactly the library's severities, pickle by pickle", 1)
+    found, n_worlds = _cli_safety(repo, tier)
+    mainf = repo.func("fickling.cli.main")
+    for key, (c, msg) in sorted(found.items()):
+        rep.bad("C10.faces-worlds", mainf.qualname, key, f"{msg} [{c} world(s)]", mainf.file, mainf.line)
+    rep.ok("C10.faces-worlds", mainf.qualname, f"{n_worlds} worlds (stacks of 1-3 pickles drawn from five verdict classes, with and without --print-results): cli.main --check-safety interpreted end to end, its exit status and the JSON documents it appends compared with check_safety(<each pickle>).severity computed by the same interpreted analyses", "", nontrivial=True)
+
